@@ -251,6 +251,19 @@ fn signature_cases(out: &mut Vec<Case>) {
             }
         }
     }
+    // a user symbol named like a library gate, declared before the include: the include reports
+    // that one clash and still declares every other gate of the library
+    for (gi, (gname, _, _)) in STDGATES.iter().enumerate() {
+        for form in 0..2 {
+            let (decl, own): (String, Option<(usize, usize)>) = if form == 0 { (format!("gate {} w1, w2, w3, w4 {{ }}", gname), Some((0, 4))) } else { (format!("int {} = 1;", gname), None) };
+            let mut gates: Vec<(String, usize, usize)> = STDGATES.iter().enumerate().filter(|(i, _)| *i != gi).map(|(_, (n, p, q))| (n.to_string(), *p, *q)).collect();
+            if let Some((p, q)) = own {
+                gates.push((gname.to_string(), p, q));
+            }
+            gates.sort();
+            out.push(Case { text: format!("{} include \"stdgates.inc\";", decl), tag: format!("library-clash/{}", if form == 0 { "gate" } else { "int" }), expect: vec![], bad_width: None, gates: Some(gates), def_ret: None, nontrivial: true });
+        }
+    }
     let ptypes = ["intw", "floatw", "bit", "anglew", "bool", "bitw", "complexw", "uintw"];
     let rets = ["none", "bit", "bitw", "int", "intw", "uintw", "floatw", "float", "anglew", "complexw", "complex", "bool", "duration"];
     for np in 0..=4usize {
